@@ -35,7 +35,7 @@ class Unsupported(Exception):
     pass
 
 
-INT, BOOL, BYTES, NONE, STR = 'int', 'bool', 'bytes', 'none', 'str'
+INT, BOOL, BYTES, NONE, STR, HEX4 = 'int', 'bool', 'bytes', 'none', 'str', 'hex4'
 
 
 def lean_type(t, structs):
@@ -49,6 +49,8 @@ def lean_type(t, structs):
         return 'Unit'
     if t == STR:
         return 'List Char'
+    if t == HEX4:
+        return 'Int'            # the text hex(X)[4:].rstrip('L') is carried as X itself; its only use is binascii.unhexlify
     if isinstance(t, tuple) and t[0] == 'list':
         return 'List (%s)' % lean_type(t[1], structs)
     if isinstance(t, tuple) and t[0] == 'tuple':
@@ -82,6 +84,16 @@ def hex_sentinel_arg(e):
             h = sub.value
             if isinstance(h, ast.Call) and isinstance(h.func, ast.Name) and h.func.id == 'hex' and len(h.args) == 1:
                 return h.args[0]
+    return None
+
+
+def bin_sentinel_arg(e):
+    """X if e is the idiom `bin(X)[10:]` (binary digits of X without '0b' and the eight leading sentinel digits)"""
+    if isinstance(e, ast.Subscript) and isinstance(e.slice, ast.Slice) and e.slice.upper is None and e.slice.step is None \
+            and isinstance(e.slice.lower, ast.Constant) and e.slice.lower.value == 10:
+        h = e.value
+        if isinstance(h, ast.Call) and isinstance(h.func, ast.Name) and h.func.id == 'bin' and len(h.args) == 1:
+            return h.args[0]
     return None
 
 
@@ -411,6 +423,12 @@ class Translator:
                 return '([%s] : %s)' % (', '.join(a for a, _ in items), lean_type(lt, self.structs)), lt
             return '(%s)' % ', '.join(a for a, _ in items), ('tuple',) + tuple(t for _, t in items)
         if isinstance(e, ast.Subscript):
+            bx = bin_sentinel_arg(e)
+            if bx is not None:
+                a, t = self.expr(fn, bx, env)
+                if t != INT:
+                    raise Unsupported('bin of %r' % (t,))
+                return '(Py.binAfter10 %s)' % a, STR
             base, tb = self.expr(fn, e.value, env)
             if not (tb in (BYTES, STR) or (isinstance(tb, tuple) and tb[0] == 'list')):
                 raise Unsupported('subscript of %r' % (tb,))
@@ -444,6 +462,12 @@ class Translator:
             assert P
             return '(← Py.getIdx %s %s)' % (base, i), et
         if isinstance(e, ast.Call):
+            x = hex_sentinel_arg(e)
+            if x is not None:
+                a, t = self.expr(fn, x, env)
+                if t != INT:
+                    raise Unsupported('hex of %r' % (t,))
+                return a, HEX4
             return self.call(fn, e, env)
         raise Unsupported('%s: expression %s' % (fn.key, ast.dump(e)))
 
@@ -502,12 +526,9 @@ class Translator:
             if f.id == 'abs' and len(args) == 1:
                 return '((%s).natAbs : Int)' % self.expr(fn, args[0], env)[0], INT
         if isinstance(f, ast.Attribute) and f.attr == 'unhexlify' and len(args) == 1:
-            x = hex_sentinel_arg(args[0])
-            if x is None:
+            a, t = self.expr(fn, args[0], env)
+            if t != HEX4:
                 raise Unsupported('unhexlify of something else than hex(X)[4:].rstrip(\'L\')')
-            a, t = self.expr(fn, x, env)
-            if t != INT:
-                raise Unsupported('hex of %r' % (t,))
             assert fn.partial
             return '(← Py.unhexAfter4 %s)' % a, BYTES
         if isinstance(f, ast.Attribute) and f.attr == 'bit_length' and not args:
@@ -1009,6 +1030,7 @@ class Translator:
         params = [a.arg for a in node.args.args]
         env = {}
         ptypes = fn.cfg.get('params', {})
+        is_init = fn.cls is not None and node.name == '__init__'
         for p in params:
             if p == 'self' and fn.cls:
                 env[p] = ('struct', fn.cls)
@@ -1031,8 +1053,13 @@ class Translator:
             rt = lean_type(ret, self.structs)
         if fn.partial:
             rt = 'Except String (%s)' % rt
-        sig = ' '.join('(%s : %s)' % (p, lean_type(env[p], self.structs)) for p in params)
+        sig = ' '.join('(%s : %s)' % (p, lean_type(env[p], self.structs)) for p in params if not (is_init and p == 'self'))
         head = 'def %s %s : %s :=%s' % (fn.lean_name, sig, rt, ' do' if fn.partial else '')
+        if is_init:
+            # constructor: `self` starts as the record of zeros / empty lists and is returned
+            zero = {INT: '0', BOOL: 'false', BYTES: '[]', STR: '[]'}
+            init = ', '.join('%s := %s' % (f, zero.get(t, '[]')) for f, t in self.structs[fn.cls]['fields'])
+            body = ['  let self : %s := { %s }' % (lean_type(('struct', fn.cls), self.structs), init)] + body
         src = ast.get_source_segment(open(os.path.join(self.repo, self.sources[fn.key.split('.')[0]])).read(), node)
         doc = '/- %s  (%s)\n%s\n-/' % (fn.key, self.sources[fn.key.split('.')[0]], textwrap.indent(src, '   '))
         self.out.append(doc + '\n' + head + '\n' + '\n'.join(body) + '\n')
@@ -1074,6 +1101,8 @@ class Translator:
         for k in self.order:
             fn = self.fns[k]
             params = [a.arg for a in fn.node.args.args]
+            if fn.cls and fn.node.name == '__init__':
+                params = params[1:]
             pats = ', '.join('a%d' % i for i in range(len(params)))
             calls = ' '.join('(← Wire.ofSx a%d)' % i for i in range(len(params)))
             body = '%s %s' % (fn.lean_name, calls)
@@ -1119,11 +1148,13 @@ TARGETS = {
                     'append_integer': {'params': {'value': 'int'}},
                     'append_unsigned_integer': {'params': {'value': 'int'}},
                     '__iadd__': {'params': {'other': 'struct:oer.Encoder'}},
+                    'as_bytearray': {},
                 },
             },
             'Decoder': {
                 'fields': {'number_of_bits': 'int', 'total_number_of_bits': 'int', 'value': 'int'},
                 'methods': {
+                    '__init__': {'params': {'encoded': 'bytes'}},
                     'align': {},
                     'number_of_read_bits': {},
                     'skip_bits': {'params': {'number_of_bits': 'int'}},
@@ -1166,11 +1197,13 @@ TARGETS = {
                     'append_constrained_whole_number': {'params': {'value': 'int', 'minimum': 'int', 'maximum': 'int', 'number_of_bits': 'int'}},
                     'append_unconstrained_whole_number': {'params': {'value': 'int'}},
                     '__iadd__': {'params': {'other': 'struct:per.Encoder'}},
+                    'as_bytearray': {},
                 },
             },
             'Decoder': {
                 'fields': {'number_of_bits': 'int', 'total_number_of_bits': 'int', 'value': 'str'},
                 'methods': {
+                    '__init__': {'params': {'encoded': 'bytes'}},
                     'align_always': {},
                     'align': {},
                     'number_of_read_bits': {},
